@@ -69,7 +69,7 @@ def _strip(tag):
 def _ang_text(s):
     """angular value text -> gon (longdouble); sexagesimal d-m-s means degrees (manual: Angular units)"""
     s = s.strip()
-    if "-" in s[1:]:
+    if re.match(r"^[+-]?\d+-\d+-[\d.]", s):
         neg = s.startswith("-")
         parts = s.lstrip("+-").split("-")
         d = LD(float(parts[0]))
@@ -587,6 +587,11 @@ def judge(ck, rows, want_text):
         rowmaxE = np.max(np.abs(out["coef"]), axis=1).astype(np.float64)
         rich = np.max(out["fderr"], axis=1).astype(np.float64)
         ang = kind in ANGULAR
+        tolM = TOL_COEFF_REL * rowmax[:, None] + fderr.astype(np.float64) + 1e-300
+        ratioM = np.abs(g - coefE.astype(np.float64)) / tolM
+        okrow = ~np.asarray(out["sing"]) & (rich <= RICHARDSON * rowmaxE + 1e-300) & np.isfinite(rich)
+        if okrow.any():
+            ck.ratio("coefficient error / tolerance", float(ratioM[okrow].max()), 1.0)
         for li, i in enumerate(sel):
             m = rows.meta[i]
             if out["sing"][li]:
@@ -596,18 +601,15 @@ def judge(ck, rows, want_text):
                 ck.inconc("finite-difference estimates disagree (near-singular geometry)")
                 continue
             # ---- coefficients
-            worst = 0.0
-            for j in range(10):
-                tol = TOL_COEFF_REL * rowmax[li] + float(fderr[li, j]) + 1e-300
-                err = abs(float(g[li, j]) - float(coefE[li, j]))
-                r = ck.ratio("coefficient error / tolerance", err, tol)
-                worst = max(worst, r)
-                if r > 1.0:
-                    viol("coeff:%s:%s" % (kind, SLOTS[j]),
-                         "%s row: coefficient of %s is %.12g, derivative of the observation function is %.12g "
-                         "(status %s, %s/%s, geometry %s)" % (kind, SLOTS[j], g[li, j], float(coefE[li, j]),
-                                                              m["status"], m["axes"], m["angles"], m["geo"]), i,
-                         dict(expected_row=[float(x) for x in coefE[li]], gama_dense=[float(x) for x in g[li]]))
+            if ratioM[li].max() > 1.0:
+                for j in range(10):
+                    if ratioM[li, j] > 1.0:
+                        viol("coeff:%s:%s" % (kind, SLOTS[j]),
+                             "%s row: coefficient of %s is %.12g, derivative of the observation function is %.12g "
+                             "(status %s, %s/%s, geometry %s)" % (kind, SLOTS[j], g[li, j], float(coefE[li, j]),
+                                                                  m["status"], m["axes"], m["angles"], m["geo"]), i,
+                             dict(expected_row=[float(x) for x in coefE[li]], gama_dense=[float(x) for x in g[li]],
+                                  tolerance=float(tolM[li, j])))
             if EX[i] > 0:
                 viol("coeff:%s:unexpected-unknown" % kind,
                      "%s row has a non-zero coefficient %r for an unknown that is neither a coordinate of its "
@@ -625,7 +627,14 @@ def judge(ck, rows, want_text):
                 k = round(e / 4e6) if abs(e) > 2e6 else 0
                 er = e - 4e6 * k
                 near = abs(abs(er) - 2e6) <= max(tol, 1e-3)
-                wrap = ("near%+d" % (200 if er > 0 else -200)) if near else ("none" if k == 0 else "%+dx400" % (-k))
+                # wrap side as gama meets it: observed and computed value both in [0, 400) gon
+                vn = float(VAL[i]) % 400.0
+                cn = (vn - e / 1e4) % 400.0
+                raw = vn - cn
+                wrap = ("near%+d" % (200 if er > 0 else -200)) if near else \
+                    ("none" if abs(raw) < 200 else ("over+200" if raw > 0 else "under-200"))
+                if not 0.0 <= float(VAL[i]) < 400.0:
+                    wrap += ",written outside [0,400)"
                 d = gr - er
                 kk = round(d / 4e6)
                 dw = d - 4e6 * kk
@@ -669,6 +678,16 @@ def judge(ck, rows, want_text):
                      "%dD" % m["dim"]))
             ck.count("rows:" + kind, 1)
             ck.count("rows via " + m["source"], 1)
+            if kind in HORIZ_ANG:
+                ck.count("misclosure %s: %s" % (kind, wrap), 1)
+            if kind == "z-angle":
+                zg = float(out["F0"][li] / GON2RAD)
+                ck.count("zenith %s gon" % ("1-5" if zg < 5 else "5-95" if zg < 95 else "95-105" if zg <= 105 else
+                                            "105-195" if zg <= 195 else "195-199"), 1)
+            cm = float(np.max(np.abs(Qa[i])))
+            ck.count("coordinates up to 1e%d" % (int(math.floor(math.log10(cm))) + 1 if cm >= 1 else 0), 1)
+            if m["net"].get("degrees"):
+                ck.count("rows of inputs in degrees", 1)
             ck.count("frame %s/%s" % (m["axes"], m["angles"][0]), 1)
             if kind not in ("dh", "x", "y", "z", "dx", "dy", "dz"):
                 L = float(out["L"][li])
@@ -677,7 +696,7 @@ def judge(ck, rows, want_text):
                 ck.sample(dict(kind=kind, frm=m["frm"], to=m["to"], fs=m["fs"], status=m["status"], geo=m["geo"],
                                frame=m["axes"] + "/" + m["angles"], written=m["written"], gama_row=m["gama_row"],
                                gama_rhs=m["gama_rhs"], oracle_row=[float("%.12g" % float(x)) for x in coefE[li]],
-                               oracle_rhs=float("%.9f" % e)))
+                               oracle_rhs=float("%.9f" % (er if kind in HORIZ_ANG else e))))
     for k, c in nviol.items():
         if c > 3:
             ck.count("violations:" + k, c)
@@ -699,9 +718,11 @@ class Adv:
     misclosure (small, or next to / across the +-200 gon boundary, or whole turns away).  All adjustable
     coordinates are also observed (a <coordinates> set), so every network is regular."""
 
+    STREAM = 505
+
     def __init__(self, seed, i):
         self.i, self.seed = i, seed
-        rng = self.rng = np.random.default_rng([seed, i, 505])
+        rng = self.rng = np.random.default_rng([seed, i, self.STREAM])
         self.axes, self.angles = FRAMES[i % 16]
         self.dim = 3 if rng.uniform() < 0.65 else 2
         self.degrees = rng.uniform() < 0.15
@@ -719,6 +740,28 @@ class Adv:
         self.pts[pid] = dict(x=float(x), y=float(y), z=float(z) if self.dim == 3 else None,
                              sxy=self.status(), sz=self.status() if self.dim == 3 else None)
 
+    def place(self):
+        """offset of a target from its station: bearing exactly on an axis / next to one / anywhere,
+        0.5 m .. 50 km, zenith angle 1 .. 199 gon (level and steep sights over-represented), |dz| <= 2 km"""
+        rng = self.rng
+        d = 10 ** rng.uniform(math.log10(0.5), math.log10(5e4))
+        bc = rng.choice(["axis", "near", "quad"], p=[0.3, 0.15, 0.55])
+        k = int(rng.integers(4))
+        if bc == "axis":
+            dx, dy = [(d, 0.0), (0.0, d), (-d, 0.0), (0.0, -d)][k]
+        else:
+            a = k * math.pi / 2 + (rng.choice([-1, 1]) * 10 ** rng.uniform(-12, -4) if bc == "near"
+                                   else rng.uniform(0.01, math.pi / 2 - 0.01))
+            dx, dy = d * math.cos(a), d * math.sin(a)
+        zc = rng.choice(["any", "level", "steep"], p=[0.6, 0.2, 0.2])
+        zen = rng.uniform(1.0, 199.0) if zc == "any" else \
+            (100.0 + rng.choice([-1, 1]) * 10 ** rng.uniform(-9, -1) if zc == "level" else
+             rng.choice([rng.uniform(1.0, 4.0), rng.uniform(196.0, 199.0)]))
+        dz = d / math.tan(zen * math.pi / 200)
+        if abs(dz) > 2000:
+            dz = math.copysign(rng.uniform(0, 2000), dz)
+        return dx, dy, dz
+
     def build(self):
         rng = self.rng
         ox, oy, oz = self.origin
@@ -733,22 +776,7 @@ class Adv:
             sats[hid] = []
             for s in range(int(rng.integers(4, 11))):
                 sid = "%sS%d" % (hid, s + 1)
-                d = 10 ** rng.uniform(math.log10(0.5), math.log10(5e4))
-                bc = rng.choice(["axis", "near", "quad"], p=[0.3, 0.15, 0.55])
-                k = int(rng.integers(4))
-                if bc == "axis":
-                    dx, dy = [(d, 0.0), (0.0, d), (-d, 0.0), (0.0, -d)][k]
-                else:
-                    a = k * math.pi / 2 + (rng.choice([-1, 1]) * 10 ** rng.uniform(-12, -4) if bc == "near"
-                                           else rng.uniform(0.01, math.pi / 2 - 0.01))
-                    dx, dy = d * math.cos(a), d * math.sin(a)
-                zc = rng.choice(["any", "level", "steep"], p=[0.6, 0.2, 0.2])
-                zen = rng.uniform(1.0, 199.0) if zc == "any" else \
-                    (100.0 + rng.choice([-1, 1]) * 10 ** rng.uniform(-9, -1) if zc == "level" else
-                     rng.choice([rng.uniform(1.0, 4.0), rng.uniform(196.0, 199.0)]))
-                dz = d / math.tan(zen * math.pi / 200)
-                if abs(dz) > 2000:
-                    dz = math.copysign(rng.uniform(0, 2000), dz)
+                dx, dy, dz = self.place()
                 self.add_point(sid, H["x"] + dx, H["y"] + dy, (H["z"] or 0.0) + dz)
                 sats[hid].append(sid)
         allp = list(self.pts)
@@ -839,6 +867,50 @@ class Adv:
         A, B = self.pts[a], self.pts[b]
         return math.hypot(B["x"] - A["x"], B["y"] - A["y"])
 
+    # --- single observation lines
+    def l_direction(self, sid, t, ori, mis, sd='stdev="10.0"'):
+        v = self.value("direction", sid, t, ori=ori * math.pi / 200)
+        return '<direction to="%s" val="%s" %s />' % (t, self.write_ang(v + mis), sd)
+
+    def l_distance(self, sid, t):
+        v = self.value("distance", sid, t) + self.rng.uniform(-0.2, 0.2)
+        return '<distance from="%s" to="%s" val="%s" stdev="5.0" />' % (sid, t, _fmt(v))
+
+    def l_slope(self, kind, sid, t, p_dh=0.5):
+        """s-distance / z-angle, with instrument / target heights with probability p_dh; None if the value
+        would not be a valid reading"""
+        rng = self.rng
+        dh, att = (0.0, 0.0), ""
+        if rng.uniform() < p_dh:
+            fdh = round(float(rng.uniform(1.2, 1.8)), 3) if rng.uniform() < 0.8 else 0.0
+            tdh = round(float(rng.uniform(0.0, 2.5)), 3) if rng.uniform() < 0.8 else 0.0
+            dh = (fdh, tdh)
+            if fdh:
+                att += ' from_dh="%s"' % _fmt(fdh)
+            if tdh:
+                att += ' to_dh="%s"' % _fmt(tdh)
+        v = self.value(kind, sid, t, dh=dh)
+        if kind == "s-distance":
+            v += rng.uniform(-0.2, 0.2)
+            if v <= 0:
+                return None
+            txt = _fmt(v)
+        else:
+            d3 = max(self.dist(sid, t), 0.5)
+            v += float(rng.uniform(-1, 1) * min(0.2 / d3, 0.01) * 200 / math.pi)
+            if not 0.01 < v < 199.99:
+                return None
+            txt = self.write_zen(v)
+        return '<%s from="%s" to="%s" val="%s" stdev="5.0"%s />' % (kind, sid, t, txt, att)
+
+    def l_azimuth(self, sid, t):
+        v = self.value("azimuth", sid, t) + self.ang_misclosure(self.dist(sid, t))
+        return '<azimuth from="%s" to="%s" val="%s" stdev="20.0" />' % (sid, t, self.write_ang(v))
+
+    def l_angle(self, sid, a, b):
+        v = self.value("angle", sid, a, b) + self.ang_misclosure(min(self.dist(sid, a), self.dist(sid, b)))
+        return '<angle from="%s" bs="%s" fs="%s" val="%s" stdev="14.0" />' % (sid, a, b, self.write_ang(v))
+
     def station(self, sid, targets, full):
         rng = self.rng
         targets = [t for t in targets if t != sid]
@@ -849,47 +921,22 @@ class Adv:
         # the intended one and the chosen misclosures appear in the rows
         dirs = list(targets) if full or len(targets) >= 2 else []
         for k, t in enumerate(dirs):
-            v = self.value("direction", sid, t, ori=ori * math.pi / 200)
             mis = 0.0 if k % 2 == 0 else self.ang_misclosure(self.dist(sid, t))
-            lines.append('<direction to="%s" val="%s" %s />' % (t, self.write_ang(v + mis), sd))
+            lines.append(self.l_direction(sid, t, ori, mis, sd))
         for t in targets:
             if rng.uniform() < 0.5:
-                v = self.value("distance", sid, t) + rng.uniform(-0.2, 0.2)
-                lines.append('<distance from="%s" to="%s" val="%s" stdev="5.0" />' % (sid, t, _fmt(v)))
+                lines.append(self.l_distance(sid, t))
             if self.dim == 3:
                 for kind in ("s-distance", "z-angle"):
                     if rng.uniform() < 0.5:
-                        dh = (0.0, 0.0)
-                        att = ""
-                        if rng.uniform() < 0.5:
-                            fdh = round(float(rng.uniform(1.2, 1.8)), 3) if rng.uniform() < 0.8 else 0.0
-                            tdh = round(float(rng.uniform(0.0, 2.5)), 3) if rng.uniform() < 0.8 else 0.0
-                            dh = (fdh, tdh)
-                            if fdh:
-                                att += ' from_dh="%s"' % _fmt(fdh)
-                            if tdh:
-                                att += ' to_dh="%s"' % _fmt(tdh)
-                        v = self.value(kind, sid, t, dh=dh)
-                        if kind == "s-distance":
-                            v += rng.uniform(-0.2, 0.2)
-                            if v <= 0:
-                                continue
-                            txt = _fmt(v)
-                        else:
-                            d3 = max(self.dist(sid, t), 0.5)
-                            v += float(rng.uniform(-1, 1) * min(0.2 / d3, 0.01) * 200 / math.pi)
-                            if not 0.01 < v < 199.99:
-                                continue
-                            txt = self.write_zen(v)
-                        lines.append('<%s from="%s" to="%s" val="%s" stdev="5.0"%s />' % (kind, sid, t, txt, att))
+                        lines.append(self.l_slope(kind, sid, t))
             if rng.uniform() < 0.35:
-                v = self.value("azimuth", sid, t) + self.ang_misclosure(self.dist(sid, t))
-                lines.append('<azimuth from="%s" to="%s" val="%s" stdev="20.0" />' % (sid, t, self.write_ang(v)))
+                lines.append(self.l_azimuth(sid, t))
         if len(targets) >= 2:
             for _ in range(max(1, len(targets) // 2)):
                 a, b = [str(x) for x in rng.choice(targets, 2, replace=False)]
-                v = self.value("angle", sid, a, b) + self.ang_misclosure(min(self.dist(sid, a), self.dist(sid, b)))
-                lines.append('<angle from="%s" bs="%s" fs="%s" val="%s" stdev="14.0" />' % (sid, a, b, self.write_ang(v)))
+                lines.append(self.l_angle(sid, a, b))
+        lines = [l for l in lines if l]
         if lines:
             order = rng.permutation(len(lines)) if rng.uniform() < 0.5 else range(len(lines))
             self.clusters.append(['<obs from="%s">' % sid] + [lines[int(k)] for k in order] + ["</obs>"])
@@ -925,7 +972,7 @@ class Adv:
                 _fmt(B["z"] - A["z"] + rng.uniform(-0.2, 0.2))))
         self.clusters.append(["<vectors>"] + lines + self._cov(3 * k) + ["</vectors>"])
 
-    def coordinates(self, ids):
+    def coordinates(self, ids, keep=0.3):
         """observed coordinates of every point with an adjustable component (and of some fixed ones).  The
         <point> inside <coordinates> also redefines the approximate coordinates, so the point definitions are
         repeated after the set (except sometimes: then the linearisation point is the observed position)."""
@@ -934,7 +981,7 @@ class Adv:
         for pid in ids:
             p = self.pts[pid]
             adj = (p["sxy"] in ("f", "c")) or (p["sz"] in ("f", "c"))
-            if not adj and rng.uniform() < 0.7:
+            if not adj and rng.uniform() >= keep:
                 continue
             s = '<point id="%s"' % pid
             if p["x"] is not None:
@@ -980,6 +1027,100 @@ class Adv:
         return "\n".join(out)
 
 
+class Solo(Adv):
+    """one observation (one small set of directions / one vector / one or two observed points) in a network
+    of four points, for the direct driver: no adjustment is run, so nothing has to be determined, every point
+    may be fixed, and the approximate orientation of a direction set is dictated (ORI line)"""
+    STREAM = 507
+
+    def build(self):
+        rng = self.rng
+        kind = self.kind = KINDS[self.i % 13]
+        self.ori = []
+        self.dim = 3 if (kind in USES_Z or kind in ("dx", "dy") or rng.uniform() < 0.3) else 2
+        ox, oy, oz = self.origin
+        self.add_point("A", ox + rng.uniform(-3000, 3000), oy + rng.uniform(-3000, 3000), oz + rng.uniform(-50, 50))
+        A = self.pts["A"]
+        for pid in ("B", "C", "D"):
+            dx, dy, dz = self.place()
+            self.add_point(pid, A["x"] + dx, A["y"] + dy, (A["z"] or 0.0) + dz)
+        lines = None
+        if kind == "direction":
+            ori = float(rng.uniform(0, 400))
+            self.ori.append(ori * math.pi / 200)
+            tg = ["B", "C", "D"][:int(rng.integers(1, 4))]
+            lines = [self.l_direction("A", t, ori, self.ang_misclosure(self.dist("A", t))) for t in tg]
+        elif kind == "distance":
+            lines = [self.l_distance("A", "B")]
+        elif kind in ("s-distance", "z-angle"):
+            lines = [self.l_slope(kind, "A", "B", p_dh=0.7)]
+        elif kind == "azimuth":
+            lines = [self.l_azimuth("A", "B")]
+        elif kind == "angle":
+            lines = [self.l_angle("A", "B", "C")]
+        if lines is not None:
+            lines = [l for l in lines if l]
+            if lines:
+                self.clusters.append(['<obs from="A">'] + lines + ["</obs>"])
+        elif kind == "dh":
+            v = self.pts["B"]["z"] - A["z"] + rng.uniform(-0.2, 0.2)
+            self.clusters.append(["<height-differences>", '<dh from="A" to="B" val="%s" stdev="2.0" />' % _fmt(v),
+                                  "</height-differences>"])
+        elif kind in ("dx", "dy", "dz"):
+            B = self.pts["B"]
+            self.clusters.append(["<vectors>", '<vec from="A" to="B" dx="%s" dy="%s" dz="%s" />' % (
+                _fmt(B["x"] - A["x"] + rng.uniform(-0.2, 0.2)), _fmt(B["y"] - A["y"] + rng.uniform(-0.2, 0.2)),
+                _fmt(B["z"] - A["z"] + rng.uniform(-0.2, 0.2)))] + self._cov(3) + ["</vectors>"])
+        else:
+            self.coordinates(["A", "B"][:int(rng.integers(1, 3))], keep=1.0)
+
+    def header(self):
+        return ["ORI " + " ".join(repr(v) for v in self.ori)] if self.ori else []
+
+
+def run_netdrv(ck, cases, seed):
+    """cases: list of (id, header lines, gkf text).  -> {id: event | None}; sanitizer reports become violations"""
+    exe = runner.binpath("san", "netdrv")
+
+    def feed(batch):
+        return "".join("NET %s\n%s%s%%%%END\n" % (cid, "".join(h + "\n" for h in hdr), text if text.endswith("\n")
+                                                  else text + "\n") for cid, hdr, text in batch)
+
+    def parse(out):
+        res, cur = {}, None
+        for line in out.split("\n"):
+            if line.startswith("#case "):
+                cur = line[6:]
+                res[cur] = None
+            elif line.startswith("{") and cur is not None:
+                try:
+                    res[cur] = json.loads(line)
+                except ValueError:
+                    res[cur] = dict(error="unparsable reply")
+        return res
+
+    def work(batch):
+        rr = runner.run([exe], stdin=feed(batch), timeout=600)
+        return batch, rr, parse(rr.out or "")
+
+    size = 400
+    batches = [cases[k:k + size] for k in range(0, len(cases), size)]
+    events = {}
+    for batch, rr, res in runner.pmap(work, batches):
+        if rr.san or rr.signaled or rr.timeout or rr.rc != 0:
+            # find the culprit: one case per process
+            for case in batch:
+                r1 = runner.run([exe], stdin=feed([case]), timeout=60)
+                if not ck.sanitizer(r1, dict(seed=seed, family="solo", index=case[0], input=case[2], header=case[1]),
+                                    prefix="netdrv:"):
+                    if r1.timeout:
+                        ck.inconc("netdrv timeout")
+                    events.update(parse(r1.out or ""))
+            continue
+        events.update(res)
+    return events
+
+
 def gen_realistic(seed, i):
     """determined networks from the shared generator (all stations observe most others; angles, azimuths,
     levelling, vectors, observed coordinates, heights of instrument / target), noisy values, approximate
@@ -999,13 +1140,16 @@ def gen_realistic(seed, i):
     mag = float(rng.choice([0.0, 1e3, 1e5, 7e6]))
     fr = netgen.Frame(axes=axes, angles=angles, degrees=bool(rng.uniform() < 0.2),
                       shift=(mag * rng.uniform(0.3, 1), -mag * rng.uniform(0.3, 1), float(rng.uniform(-500, 3000))))
-    return netgen.to_gkf(net, fr), dict(kind=net.kind, features=feats)
+    return netgen.to_gkf(net, fr), dict(kind=net.kind, features=feats, degrees=fr.degrees)
 
 
 def gen_text(family, seed, i):
     if family == "adv":
         g = Adv(seed, i)
         return g.text(), dict(dim=g.dim, degrees=g.degrees)
+    if family == "solo":
+        g = Solo(seed, i)
+        return g.text(), dict(dim=g.dim, degrees=g.degrees, header=g.header())
     return gen_realistic(seed, i)
 
 
@@ -1021,13 +1165,22 @@ RULE = ("rows of the first linear system gama-local builds for generated network
 
 
 def run(tier, seed, only=None):
-    runner.build("san", targets=["gama-local"])
+    # sensitivity self-test of the comparison path (CONVENTIONS rule 7): VERIF_C05_BREAK="coeff-sign=angle",
+    # "rhs-offset=dh", "reduction=z-angle", "fd-step=1" deliberately falsify the ORACLE's expectation
+    _BREAK.clear()
+    for kv in os.environ.get("VERIF_C05_BREAK", "").split(","):
+        if "=" in kv:
+            _BREAK[kv.split("=")[0]] = kv.split("=")[1]
+    runner.build("san", targets=["gama-local", "netdrv"])
     ck = Check("C05", tier, seed, RULE)
-    n_adv = tier_n(tier, 48, 1600)
-    n_real = tier_n(tier, 32, 800)
+    n_adv = tier_n(tier, 160, 1600)
+    n_real = tier_n(tier, 80, 800)
+    n_solo = tier_n(tier, 13 * 16 * 25, 13 * 16 * 300)
     jobs = [("adv", i) for i in range(n_adv)] + [("real", i) for i in range(n_real)]
+    solo = list(range(n_solo))
     if only is not None:
         jobs = [j for j in jobs if list(j) == list(only)]
+        solo = [i for i in solo if ["solo", i] == list(only)]
     rows = Rows()
 
     def work(job):
@@ -1076,8 +1229,28 @@ def run(tier, seed, only=None):
                 raise runner.HarnessError("oracle reader failed on generated input %s: %s" % (job, ex))
             collect(ck, rows, P, ev, netinfo, source="gama-local")
 
+    # ---- monitor B: LocalLinearization asked directly, one observation per network
+    cases = []
+    for i in solo:
+        g = Solo(seed, i)
+        cases.append((str(i), g.header(), g.text(), dict(dim=g.dim, degrees=g.degrees)))
+    events = run_netdrv(ck, [c[:3] for c in cases], seed) if cases else {}
+    for cid, hdr, text, info in cases:
+        ev = events.get(cid)
+        netinfo = dict(seed=seed, family="solo", index=int(cid), **info)
+        if ev is None:
+            ck.inconc("netdrv gave no reply")
+            continue
+        if "error" in ev:
+            ck.inconc("netdrv: gama refused a generated input")
+            if len(ck.counters.get("netdrv refusals", [])) < 3:
+                ck.counters.setdefault("netdrv refusals", []).append(dict(netinfo, error=ev))
+            continue
+        collect(ck, rows, parse_gkf(text), ev, netinfo, source="netdrv")
+
     def want_text(net):
-        return gen_text(net["family"], net["seed"], net["index"])[0]
+        t, info = gen_text(net["family"], net["seed"], net["index"])
+        return "\n".join(info.get("header", []) + [t])
 
     judge(ck, rows, want_text)
     ck.assumptions += [
